@@ -242,8 +242,10 @@ func (l *VegasLimit) OnSample(startTime int64, rtt int64, inFlight int, didDrop 
 	}
 
 	if rtt <= 0 {
-		// A zero RTT carries no latency information and must not become the baseline
-		// (0 encodes "unset"), but a drop reported with it still has to reduce the limit.
+		// A zero RTT carries no latency information: as before it leaves the baseline unset
+		// (0 encodes "unset", so the baseline never exceeds the sample just seen), but a drop
+		// reported with it still has to reduce the limit.
+		l.rttNoLoad.Add(float64(rtt))
 		if didDrop {
 			l.updateEstimatedLimit(startTime, rtt, inFlight, didDrop)
 		}
